@@ -6,6 +6,7 @@ KEYS = [
     'parso.tree.NodeOrLeaf.get_previous_sibling', 'parso.tree.NodeOrLeaf.get_next_leaf',
     'parso.tree.NodeOrLeaf.get_previous_leaf', 'parso.tree.Leaf.get_first_leaf', 'parso.tree.Leaf.get_last_leaf',
     'parso.tree.BaseNode.get_first_leaf', 'parso.tree.BaseNode.get_last_leaf', 'parso.tree.NodeOrLeaf.search_ancestor',
+    'parso.tree.BaseNode.get_leaf_for_position', 'parso.tree.BaseNode.get_leaf_for_position.binary_search',
 ]
 
 
